@@ -73,6 +73,16 @@ def run(ctx):
         for n in walk_no_nested(f.node):
             if isinstance(n, ast.Attribute) and isinstance(n.ctx, ast.Store) and n.attr in cleared:
                 ctx.ob("R-WRITERS", "C18.3", f, "cache attributes are written only by their property and by reset_properties", f.cls is c and (f.name == "reset_properties" or f.is_property), f"`{src(n)}`", node=n)
+    # memoised functions (functools.lru_cache / cache) are caches too: one that reads the live-point registry
+    # (config.livepoints.*) keeps answering with the registry of its first call unless every function that changes the
+    # registry clears it.  Zero instances are expected; the matcher is re-decided on a failing and a passing fixture.
+    ctx.require(_memo_selfcheck(), "R-MEMO fixtures: the registry-reading memoised function is not reported / the keyed twin is")
+    memo_ = [(f_, why_) for f_ in prog.all_functions for why_ in [_memo_reads_registry(f_.node)] if why_ is not None]
+    mutators_ = [ctx.fn(LP + ":add_extra_parameters_to_live_points"), ctx.fn(LP + ":reset_extra_live_points_parameters")]
+    for f_, why_ in memo_:
+        cleared_ = all(any(isinstance(c_, ast.Call) and isinstance(c_.func, ast.Attribute) and c_.func.attr == "cache_clear" and src(c_.func.value).split(".")[-1] == f_.name for c_ in walk_no_nested(m_.node)) for m_ in mutators_)
+        ctx.ob("R-MEMO", "C18.3", f_, "a memoised function does not read the live-point registry (or is cleared by everything that changes the registry)", cleared_, why_)
+    ctx.ob("R-MEMO", "C18.3", "nessai", "every function of the package was examined for memoisation decorators", True, f"{len(prog.all_functions)} functions, {len(memo_)} memoised functions that read config.livepoints")
     ctx.floor("C18.3", 8)
 
     # ---- C18.2 registry co-update ---------------------------------------------
@@ -126,10 +136,13 @@ def run(ctx):
         ctx.ob("R-DOM", "C18.4", gd, "non-sampling fields are appended iff requested", ("non_sampling_parameters", True) in facts, f"{facts}")
     es = ctx.fn(LP + ":empty_structured_array")
     ea = FA(es)
-    fills = [n for n in walk_no_nested(es.node) if isinstance(n, ast.For)]
+    # the fill may sit in the function itself or in a module-level helper it calls (one level)
+    helpers_ = [g_ for g_ in prog.functions_in(LP) if g_.cls is None and g_ is not es and any(isinstance(c_, ast.Call) and call_name(c_) == g_.name for c_ in walk_no_nested(es.node)) and g_.name not in ("get_dtype",)]
+    scope_ = [es.node] + [g_.node for g_ in helpers_]
+    fills = [n for sc_ in scope_ for n in walk_no_nested(sc_) if isinstance(n, ast.For)]
     okf = len(fills) == 1 and match_stmt("for $$k, $$v in zip(config.livepoints.non_sampling_parameters, config.livepoints.non_sampling_defaults):\n    $$arr[$$k] = $$v", fills[0]) is not None
     ctx.ob("R-SIB", "C18.4", es, "non-sampling fields take their registered defaults, paired by position (zip of names and defaults)", okf, "")
-    pf = find_stmt("$$arr[names] = config.livepoints.default_float_value", es.node)
+    pf = [x_ for sc_ in scope_ for pat_ in ("$$arr[names] = config.livepoints.default_float_value", "$$arr[list(names)] = config.livepoints.default_float_value") for x_ in find_stmt(pat_, sc_)]
     ctx.ob("R-SIB", "C18.4", es, "parameter fields default to the float default (NaN)", len(pf) == 1, "")
     dt = [c_ for c_ in walk_no_nested(es.node) if isinstance(c_, ast.Call) and call_name(c_) == "get_dtype"]
     ctx.ob("R-SIB", "C18.4", es, "empty arrays get their dtype from get_dtype(names, ...)", len(dt) == 1 and src(dt[0].args[0]) == "names", "")
@@ -197,6 +210,35 @@ def _same_block(fnode, stmts):
                 return True
     return False
 
+
+
+_MEMO_DECOS = ("lru_cache", "cache", "cached", "memoize", "memoise")
+
+
+def _memo_reads_registry(fnode):
+    """Explanation if fnode is memoised and reads config.livepoints.* (directly), else None."""
+    if not isinstance(fnode, (ast.FunctionDef, ast.AsyncFunctionDef)):
+        return None
+    decos = []
+    for d in fnode.decorator_list:
+        t = d.func if isinstance(d, ast.Call) else d
+        nm = t.attr if isinstance(t, ast.Attribute) else (t.id if isinstance(t, ast.Name) else "")
+        if nm in _MEMO_DECOS:
+            decos.append(nm)
+    if not decos:
+        return None
+    reads = sorted({src(n) for n in ast.walk(fnode) if isinstance(n, ast.Attribute) and isinstance(n.ctx, ast.Load) and src(n).startswith("config.livepoints.")})
+    # also through helpers of this module that are known to read the registry
+    helpers = sorted({(n.func.id if isinstance(n.func, ast.Name) else n.func.attr) for n in ast.walk(fnode) if isinstance(n, ast.Call) and (n.func.id if isinstance(n.func, ast.Name) else getattr(n.func, "attr", "")) in ("get_dtype", "empty_structured_array")})
+    if not reads and not helpers:
+        return None
+    return f"@{decos[0]} `{fnode.name}` reads {reads + [h + '()' for h in helpers]}: the registry is not part of the cache key"
+
+
+def _memo_selfcheck():
+    bad = ast.parse("@lru_cache(maxsize=8)\ndef f(dtype, names):\n    r = make(dtype)\n    for nm, v in zip(config.livepoints.non_sampling_parameters, config.livepoints.non_sampling_defaults):\n        r[nm] = v\n    return r\n").body[0]
+    good = ast.parse("@lru_cache(maxsize=8)\ndef f(dtype, names, defaults):\n    r = make(dtype)\n    for nm, v in zip(names, defaults):\n        r[nm] = v\n    return r\n").body[0]
+    return _memo_reads_registry(bad) is not None and _memo_reads_registry(good) is None
 
 CLAIM = {
     "text": "Decides the table-and-pairing discipline every conversion relies on: the three parallel core tables (names, dtypes, defaults) have matching positions with the documented defaults (NaN, NaN, 0); non_sampling_* = core ++ extra; registering an extra field updates name, dtype and default together, at most once, and every path ends by invalidating the caches; the set of lazily cached attributes equals the set cleared by reset_properties and nothing else writes them or the registry; get_dtype puts the caller's names first in the caller's order and zips non-sampling names with dtypes; empty arrays zip names with defaults; plain arrays are copied column i -> names[i]; single-point constructors append the non-sampling defaults after the parameters; the unstructured view contains no copying primitive and is ndarray(shape, dtype, buffer=x, 0, strides).view(...) over exactly the requested fields.",
